@@ -24,16 +24,48 @@ package unary
 //@   modifies nothing
 //@ trusted func (i *Iterator) Valid() (ok bool)
 //@   modifies nothing
-//@ trusted func (i *Iterator) autoNext(ctx context.Context) (ok bool)
+//@ # Automatic (chunk-sized) steps. What is under contract: the step keeps the bounds and the domain
+//@ # iterator's identity (what Next/Prev rely on), and the sample offsets it hands to the byte-offset
+//@ # resolver are the exact index counts (index.SpecPick of the distance approximation, i.e. the
+//@ # three-case table) - the boundary of the view inside the domain - and that offset moved by the
+//@ # number of samples still wanted. Reading and inserting the series are trusted (I/O).
+//@ trusted func (i *Iterator) read(ctx context.Context, alignment telem.Alignment, offset telem.Size, size telem.Size) (series telem.Series, err error)
+//@   modifies nothing
+//@ trusted func (i *Iterator) insert(series telem.Series)
+//@   modifies &i.frame
+//@ trusted func (i *Iterator) partiallySatisfied() (ok bool)
+//@   modifies nothing
+//@ spec func autoReady(i *Iterator) bool = wfIter(i) && i.idx != nil && i.idx.DB != nil && i.resolver != nil && i.resolver.cache == nil && i.resolver.density > 0 && domain.SpecDBLen(i.idx.DB) <= 2147483648 && index.SpecWholeStamps(i.idx.DB) && i.bounds.End < 9223372036854775807 && domain.SpecIterWF(i.internal) && domain.SpecIterOK(i.internal) && domain.SpecIterValid(i.internal) && i.AutoChunkSize > 0 && telem.SpecNonneg(i.internal.TimeRange())
+//@ func (i *Iterator) autoNext(ctx context.Context) (ok bool)
+//@   overflow off
+//@   pragma typed_heap
+//@   pragma abstract Len
+//@   requires autoReady(i)
 //@   ensures i.bounds == old(i.bounds) && i.internal == old(i.internal)
+//@   atcall byteOffset sampleIdx == index.SpecPick(startApprox) || sampleIdx == index.SpecPick(startApprox) + nRemaining
+//@   # Stamp under AllowDiscontinuous is not specified: the stamp a chunk ahead is not before the reference (assumed)
+//@   assume_after "endApprox, err := i.idx.Stamp(" err == nil ==> endApprox.Lower >= i.view.Start
 //@   modifies i, i.internal
-//@ trusted func (i *Iterator) autoPrev(ctx context.Context) (ok bool)
+//@   loop 0 modifies i, i.internal
+//@   loop 0 invariant i.bounds == old(i.bounds) && i.internal == old(i.internal) && i.idx == old(i.idx) && i.resolver == old(i.resolver) && wfIter(i) && autoReady(i)
+//@   loop 0 invariant domain.SpecIterWF(i.internal) && domain.SpecIterOK(i.internal)
+//@ func (i *Iterator) autoPrev(ctx context.Context) (ok bool)
+//@   overflow off
+//@   pragma typed_heap
+//@   pragma abstract Len
+//@   requires autoReady(i)
 //@   ensures i.bounds == old(i.bounds) && i.internal == old(i.internal)
+//@   atcall byteOffset sampleIdx == index.SpecPick(endApprox) || sampleIdx == max(index.SpecPick(endApprox) - nRemaining, 0)
+//@   # backwardStamp is not specified: the stamp a chunk back lies before the reference (assumed)
+//@   assume_after "startApprox, err := i.idx.Stamp(" err == nil ==> 0 <= startApprox.Lower && startApprox.Lower < i.view.Start
 //@   modifies i, i.internal
+//@   loop 0 modifies i, i.internal
+//@   loop 0 invariant i.bounds == old(i.bounds) && i.internal == old(i.internal) && i.idx == old(i.idx) && i.resolver == old(i.resolver) && wfIter(i) && autoReady(i)
+//@   loop 0 invariant domain.SpecIterWF(i.internal) && domain.SpecIterOK(i.internal)
 
 //@ func (i *Iterator) Next(ctx context.Context, span telem.TimeSpan) (ok bool)
 //@   requires wfIter(i) && span >= 0 && domain.SpecIterWF(i.internal) && domain.SpecIterOK(i.internal)
-//@   ensures  i.bounds == old(i.bounds)
+//@   ensures  i.bounds == old(i.bounds) && i.internal == old(i.internal)
 //@   ensures  i.closed ==> i.view == old(i.view)
 //@   # forward step: the new view starts where the old one ended and is clipped to the bounds
 //@   ensures  !i.closed && old(i.view.End) != old(i.bounds.End) ==> i.view.Start == old(i.view.End) && int64(i.view.End) == min(clamp.AddInt64(int64(old(i.view.End)), int64(span)), int64(i.bounds.End))
@@ -53,7 +85,7 @@ package unary
 
 //@ func (i *Iterator) Prev(ctx context.Context, span telem.TimeSpan) (ok bool)
 //@   requires wfIter(i) && span >= 0 && domain.SpecIterWF(i.internal) && domain.SpecIterOK(i.internal)
-//@   ensures  i.bounds == old(i.bounds)
+//@   ensures  i.bounds == old(i.bounds) && i.internal == old(i.internal)
 //@   ensures  i.closed ==> i.view == old(i.view)
 //@   # backward step: the new view ends where the old one started and is clipped to the bounds
 //@   ensures  !i.closed && old(i.view.Start) != old(i.bounds.Start) ==> i.view.End == old(i.view.Start) && int64(i.view.Start) == max(int64(old(i.view.Start)) - int64(span), int64(i.bounds.Start))
